@@ -44,6 +44,29 @@ def check(run):
     run.oblige("stress test: %d rounds of 2-4 really concurrent ConnectInOut calls, never two requests attached" % rounds,
                rc == 0 and not st.get("crosspairs") and "error" not in st, json.dumps(st)[:1500])
     run.cov["stress_rounds"] = st.get("rounds", 0)
+    # the same stress under Go's race detector: an unsynchronised access to what distinguishes the requests (the key counter) is reported
+    # whatever the interleaving happened to be
+    okr, rbin, rlog = vlib.build_overlay_test(run.rundir, "internal/iobroker", race=True)
+    if not okr:
+        run.oblige("race-detector build of the harness", False, rlog[-2000:])
+    else:
+        outr = os.path.join(run.rundir, "stress_race.json")
+        rr = 150 if run.tier == "quick" else 3000
+        try:
+            rc2, o2, e2 = vlib.sh([rbin, "-test.run", "^TestVerifIoStress$", "-test.count=1"], cwd=run.rundir, timeout=900,
+                                  env=dict(os.environ, VERIF_OUT=outr, VERIF_STRESS=str(rr), GORACE="halt_on_error=0"))
+            txt = (o2 + e2).decode(errors="replace")
+        except Exception as ex:
+            rc2, txt = 1, str(ex)
+        races = txt.count("WARNING: DATA RACE")
+        if races:
+            first = txt[txt.index("WARNING: DATA RACE"):][:2500]
+            run.violation("io-stress-data-race", "Go's race detector reports unsynchronised accesses in the broker while /io requests arrive concurrently: "
+                          "what keeps two requests apart (per-request key, slots) is not safely shared, so halves of different requests can pair",
+                          {"stream": "stress-race", "input": {"rounds": rr, "concurrent_requests": "2-4 per round"}, "detail": {"reports": races, "first_report": first}})
+        run.oblige("stress test under the race detector: %d rounds of 2-4 concurrent ConnectInOut calls, no data race reported" % rr,
+                   rc2 == 0 and not races, txt[-1500:])
+        run.cov["stress_race_rounds"] = rr
     run.assumptions += ["a client cannot send the random bidirectional sentinel as an ID; the per-request counter is atomic (Go's atomic.Uint64): "
                         "the model gives every request its own key, the harness drives requests through the real ConnectInOut"]
     run.trusted += ["harness/overlay/iobroker", "props/brokerlib.py", "coq/Model/Broker.v tied by this correspondence"]
